@@ -24,16 +24,23 @@
                                          from_dict k j true = Err e \/ ... = Err ECyclic
        [from_dict_true_iff]            from_dict k j true = Ok g <->
                                          from_dict k j false = Ok g /\ Acyclic g
+       [dict_roundtrip_cyclic_refused] g.to_dict() of a state with a directed cycle is refused
     2. from_adjacency_matrix
-       [from_matrix_edges_sound]       every stored edge is undirected or is a directed entry
+       [from_matrix_shape], [from_matrix_edges_sound]
+                                       every stored edge is undirected or is a directed entry
                                        pair of the matrix (any input)
        [from_matrix_validate_ok], [from_matrix_validate_err], [from_matrix_true_iff],
        [from_matrix_validated_acyclic] as for from_dict (any input)
        [from_matrix_built]             well-formed input: the unvalidated construction succeeds
                                        and its directed part IS the directed part of the matrix
        [from_matrix_cyclic_refused], [from_matrix_acyclic_accepted], [from_matrix_decide]
-    3. from_networkx, from_skeleton, Skeleton.from_dict (corollaries)
-    4. [Built], [built_inv], [built_validated_acyclic], [is_dag_of_constructed]. *)
+       [from_matrix_default_names]     (section 5) node_names=None at the verified codec
+    3. from_networkx ([from_nx_validated_acyclic], [from_nx_true_iff], [from_nx_cyclic_refused],
+       [from_nx_acyclic_accepted]), from_skeleton ([from_skeleton_undirected]),
+       Skeleton.from_dict ([skeleton_from_dict_acyclic])
+    4. [Built], [built_inv], [built_validated_acyclic], [is_dag_of_constructed],
+       [is_dag_of_validated], [is_dag_of_from_skeleton].
+    The per-lag constructor [from_adjacency_matrices] is treated in CtorAcyclicLag.v. *)
 From Coq Require Import Relations.Relation_Operators.
 From CG Require Import Base Digraph DigraphProofs Graph GraphObs GraphInv GraphInvProofs.
 From CG Require Import GraphAcyclicLemmas GraphAcyclicProofs Serial Matrix MatrixProofs Skeleton.
@@ -493,6 +500,32 @@ Section Ctor.
   Corollary from_dict_acyclic_accepted k j g :
     from_dict parse fmt k j false = Ok g -> Acyclic g -> from_dict parse fmt k j true = Ok g.
   Proof. intros H Hac. apply from_dict_true_iff. split; assumption. Qed.
+
+  (** deeply equal states have the same directed part *)
+  Lemma deep_eq_arcs g g' :
+    deep_eq_state g g' -> forall a b, arc (dgraph g) a b <-> arc (dgraph g') a b.
+  Proof.
+    intros (_ & He & _) a b. apply SerialProofs.map_edge4_inj in He.
+    assert (Hin : forall e, In e (gsrc g) <-> In e (gsrc g')).
+    { intros e. unfold v_edges, sorted_edges in He.
+      rewrite <- (isort_in (pair_leb_e) e (gsrc g)), He. apply isort_in. }
+    rewrite !arc_dgraph. split; intros (e & Hi & H); exists e; (split; [apply Hin, Hi|exact H]).
+  Qed.
+
+  (** the dictionary written by [to_dict] for a state whose directed part has a cycle (possible
+      only after validate=False mutations) is refused by the validating [from_dict] with
+      CyclicConnectionError; it is accepted, and reproduces the state, otherwise
+      ([SerialProofs.roundtrip]) *)
+  Theorem dict_roundtrip_cyclic_refused k g :
+    Inv parse k g -> (k = TS -> SerialProofs.TagsStable g) -> ~ Acyclic g ->
+    exists j, to_dict k g true = Ok j /\ from_dict parse fmt k j true = Err ECyclic.
+  Proof.
+    intros HI HT Hcyc.
+    destruct (@SerialProofs.roundtrip_novalidate parse fmt k g HI HT) as (j & g' & Hj & Hg' & Hde).
+    exists j. split; [exact Hj|]. apply (from_dict_cyclic_refused k j g' Hg').
+    intros Hac. apply Hcyc. intros v Hv. apply (Hac v).
+    apply (path_ext _ _ (deep_eq_arcs g g' Hde)). exact Hv.
+  Qed.
 
   (** [Skeleton.from_dict] *)
   Corollary skeleton_from_dict_acyclic k j g :
@@ -1088,6 +1121,47 @@ Section Ctor.
   Corollary from_skeleton_acyclic k g0 v g : from_skeleton k g0 v = Ok g -> Acyclic g.
   Proof. intros H. exact (proj1 (proj2 (from_skeleton_undirected k g0 v g H))). Qed.
 
+  (** the Skeleton class methods [Skeleton.from_adjacency_matrix] / [Skeleton.from_networkx]
+      (they delegate to the graph class) and [Skeleton.from_dict(sk.to_dict(), graph_class)]
+      as modelled in Skeleton.v ([sk_from_dict]: the node objects, then the undirected edge
+      objects, each added with validate=True) *)
+  Corollary sk_from_matrix_acyclic k a names g :
+    sk_from_matrix parse fmt k a names true = Ok g -> Acyclic g.
+  Proof. apply from_matrix_validated_acyclic. Qed.
+
+  Corollary sk_from_nx_acyclic k x g : sk_from_nx parse fmt k x true = Ok g -> Acyclic g.
+  Proof. apply from_nx_validated_acyclic. Qed.
+
+  Lemma run_all_good k ops : forall g g',
+    (forall o, In o ops ->
+       (exists id vt m, o = OAddNodeObj id vt m) \/ (exists sp dp ty m, o = OAddEdge sp dp ty m true)) ->
+    Good g -> run_all parse fmt k ops g = Ok g' -> Good g'.
+  Proof.
+    unfold run_all. induction ops as [|o ops IH]; intros g g' Hops HG; cbn [fold_left].
+    - intros [= <-]. exact HG.
+    - cbn [bind]. destruct (fst (run_op parse fmt k g o)) as [g1|x] eqn:E.
+      + apply IH; [intros o' Ho'; apply Hops; right; exact Ho'|].
+        destruct (Hops o (or_introl eq_refl)) as [(id & vt & m & ->)|(sp & dp & ty & m & ->)];
+          cbn [run_op] in E.
+        * destruct (add_node_obj parse k g id vt m) as [g2|y] eqn:E2; cbn [lift fst] in E;
+            [|discriminate].
+          injection E as <-. exact (good_add_node_obj parse k g id vt m g2 HG E2).
+        * destruct (good_add_edge parse k g sp dp ty m HG) as [HG' Heq].
+          rewrite <- (Heq g1 E) in HG'. exact HG'.
+      + intros H. exfalso. revert H. clear. induction ops as [|o' ops IH]; cbn [fold_left bind];
+          [discriminate|exact IH].
+  Qed.
+
+  Theorem sk_from_dict_acyclic k g0 g : sk_from_dict parse fmt k g0 = Ok g -> Acyclic g.
+  Proof.
+    unfold sk_from_dict. intros H.
+    refine (proj2 (run_all_good k _ _ g _ (conj (cinv_empty []) (acyclic_empty [])) H)).
+    intros o Ho. unfold sk_dict_ops in Ho. apply in_app_or in Ho. destruct Ho as [Ho|Ho];
+      apply in_map_iff in Ho; destruct Ho as (y & <- & _).
+    - left. eexists; eexists; eexists; reflexivity.
+    - right. eexists; eexists; eexists; eexists; reflexivity.
+  Qed.
+
   (** * 4. is_dag() of a constructed graph *)
 
   (** [Built k v g]: [g] was returned by one of the constructors of class [k] called with
@@ -1100,7 +1174,19 @@ Section Ctor.
   | B_from_skeleton k g0 v g : from_skeleton k g0 v = Ok g -> Built k v g
   | B_copy k g0 im g : copy parse fmt k g0 im = Ok g -> Built k false g
   | B_from_causal_graph g0 g : from_causal_graph parse fmt g0 = Ok g -> Built TS false g
-  | B_ts_to_cg g0 g : ts_to_cg parse fmt g0 = Ok g -> Built Plain true g.
+  | B_ts_to_cg g0 g : ts_to_cg parse fmt g0 = Ok g -> Built Plain true g
+  | B_sk_from_dict k g0 g : sk_from_dict parse fmt k g0 = Ok g -> Built k true g.
+
+  Lemma run_all_inv k ops : forall g g',
+    Inv parse k g -> run_all parse fmt k ops g = Ok g' -> Inv parse k g'.
+  Proof.
+    unfold run_all. induction ops as [|o ops IH]; intros g g' HI; cbn [fold_left].
+    - intros [= <-]. exact HI.
+    - cbn [bind]. destruct (fst (run_op parse fmt k g o)) as [g1|x] eqn:E.
+      + apply IH. exact (inv_run_op_ok parse fmt k g o g1 HI E).
+      + intros H. exfalso. revert H. clear. induction ops as [|o' ops IH]; cbn [fold_left bind];
+          [discriminate|exact IH].
+  Qed.
 
   Lemma from_dict_inv' k j v g : from_dict parse fmt k j v = Ok g -> Inv parse k g.
   Proof.
@@ -1111,7 +1197,7 @@ Section Ctor.
   Theorem built_inv k v g : Built k v g -> Inv parse k g.
   Proof.
     intros [k' j v' g' H|k' j g' H|k' a names v' g' H|k' x v' g' H|k' g0 v' g' H|k' g0 im g' H
-           |g0 g' H|g0 g' H].
+           |g0 g' H|g0 g' H|k' g0 g' H].
     - exact (from_dict_inv' k' j v' g' H).
     - exact (from_dict_inv' k' j true g' H).
     - exact (proj1 (from_matrix_shape k' a names v' g' H)).
@@ -1125,6 +1211,7 @@ Section Ctor.
     - unfold ts_to_cg in H.
       destruct (to_dict TS g0 true) as [j|x]; cbn [bind] in H; [|discriminate].
       exact (from_dict_inv' Plain j true g' H).
+    - exact (run_all_inv k' _ _ g' (inv_init parse k' []) H).
   Qed.
 
   (** C02, constructors: with validation on, no constructor returns a graph whose directed
@@ -1133,7 +1220,7 @@ Section Ctor.
   Proof.
     intros HB. remember true as v eqn:Ev.
     destruct HB as [k j v g H|k j g H|k a names v g H|k x v g H|k g0 v g H|k g0 im g H
-                   |g0 g H|g0 g H]; try subst v.
+                   |g0 g H|g0 g H|k g0 g H]; try subst v.
     - exact (from_dict_validated_acyclic k j g H).
     - exact (skeleton_from_dict_acyclic k j g H).
     - exact (from_matrix_validated_acyclic k a names g H).
@@ -1144,6 +1231,7 @@ Section Ctor.
     - unfold ts_to_cg in H.
       destruct (to_dict TS g0 true) as [j|x]; cbn [bind] in H; [|discriminate].
       exact (from_dict_validated_acyclic Plain j g H).
+    - exact (sk_from_dict_acyclic k g0 g H).
   Qed.
 
   (** C02, is_dag: for a graph however it was constructed (validate=False included),
@@ -1405,6 +1493,15 @@ Module CtorExamples.
     congruence.
   Qed.
 
+  (** [dict_roundtrip_cyclic_refused] on the 3-cycle built by the public mutators with
+      validate=False ([ex_cyc3] of GraphAcyclicProofs.v): g.to_dict() is refused by from_dict *)
+  Example ex_dict_roundtrip_refused :
+    exists j, to_dict Plain ex_cyc3 true = Ok j /\ from_dict parse fmt Plain j true = Err ECyclic.
+  Proof.
+    apply dict_roundtrip_cyclic_refused;
+      [exact ex_cyc3_inv|discriminate|exact ex_cyc3_not_acyclic].
+  Qed.
+
   (** ** from_adjacency_matrix *)
 
   Definition m_cyc : matrix := [[0; 1; 0]; [0; 0; 1]; [1; 0; 0]]%Z.   (* 0 -> 1 -> 2 -> 0 *)
@@ -1583,4 +1680,33 @@ Module CtorExamples.
     apply (is_dag_of_from_skeleton parse fmt k (gcyc k) true g E) in Ed.
     destruct k; vm_compute in E; injection E as <-; discriminate.
   Qed.
+
+  (** the skeleton of the time-series graph x lag(n=1) -> x -> y, rebuilt with the time-series
+      class (the undirected edge x lag(n=1) -- x is stored earlier -> later) and with the
+      plain class (stored as networkx lists it); nodes and edges in get_edges() order *)
+  Definition gts : graph :=
+    run parse fmt TS [OAddEdge (str_ep x1) (str_ep x0) Dir None true;
+                      OAddEdge (str_ep x0) (str_ep ny) Dir None true] (empty_graph []).
+  Definition showv (r : res graph) : res (list name * list (name * name * etype) * bool) :=
+    match r with
+    | Ok g => Ok (v_node_names g, map (fun e => (esrc e, edst e, ety e)) (v_edges g),
+                 is_dag_model g)
+    | Err e => Err e
+    end.
+  Example ex_from_skeleton_ts :
+    showv (from_skeleton parse fmt TS gts true)
+    = Ok ([x0; x1; ny], [(x0, ny, Und); (x1, x0, Und)], false)
+    /\ showv (from_skeleton parse fmt Plain gts false)
+       = Ok ([x0; x1; ny], [(x0, x1, Und); (x0, ny, Und)], false).
+  Proof. vm_compute. split; reflexivity. Qed.
 End CtorExamples.
+
+(* Print Assumptions from_dict_validated_acyclic. from_dict_validate_ok. from_dict_validate_err.
+   from_dict_true_iff. from_dict_cyclic_refused. dict_roundtrip_cyclic_refused.
+   skeleton_from_dict_acyclic. from_matrix_shape. from_matrix_edges_sound.
+   from_matrix_validate_ok. from_matrix_true_iff. from_matrix_validated_acyclic.
+   from_matrix_built. from_matrix_cyclic_refused. from_matrix_acyclic_accepted.
+   from_matrix_decide. from_matrix_default_names. from_nx_validated_acyclic.
+   from_nx_cyclic_refused. from_nx_acyclic_accepted. from_skeleton_undirected. built_inv.
+   built_validated_acyclic. is_dag_of_constructed. is_dag_of_validated. is_dag_of_from_skeleton.
+   — all "Closed under the global context". *)
